@@ -36,6 +36,7 @@ func (r *run) body(evs []Ev) {
 		r.connect(a)
 	}
 	w.mongo.Auto = false
+	w.br.holdPub = r.cfg.HoldPub
 	r.mon.afterSetup(r)
 	for i, e := range evs {
 		r.step = i + 1
@@ -92,8 +93,22 @@ func (a *actor) dt(i int) *dtState {
 	return a.dts[i%len(a.dts)]
 }
 
+// quietGone: a realtime client whose collection was reset under it (its registration is gone) re-sends a
+// refused push at once, for ever (DeliverTransaction re-delivers while NeedPush). None of the given
+// properties speaks about that, and the run would never become quiet: such a client issues nothing more.
+func (r *run) quietGone(i int) bool {
+	a := r.actor(i)
+	return a.gone && a.realtime
+}
+
 func (r *run) dispatch(e Ev) {
 	r.trace.Str(e.T).Str(e.Op).Int(e.A)
+	switch e.T {
+	case "local", "burst", "tx", "open":
+		if r.quietGone(e.A) {
+			return
+		}
+	}
 	switch e.T {
 	case "open":
 		r.open(r.actor(e.A), e)
@@ -124,6 +139,9 @@ func (r *run) dispatch(e Ev) {
 		// seeded choice of the settle step that follows the event
 		for _, b := range e.Body {
 			a := r.actor(b.A)
+			if r.quietGone(b.A) {
+				continue
+			}
 			if d := a.dt(b.D); d != nil {
 				r.local(a, d, apiOf(d.pub), b)
 			}
@@ -158,6 +176,8 @@ func (r *run) dispatch(e Ev) {
 		r.rogue(e)
 	case "reset":
 		r.resetCollection(e)
+	case "rejoin":
+		r.rejoin(e)
 	case "wire":
 		r.wireEvent(e)
 	}
@@ -195,12 +215,50 @@ func (r *run) afterEvent(e Ev) {
 	r.states[h.Sum()] = true
 }
 
+// rejoin: the application whose collection was reset starts over with a fresh client.
+func (r *run) rejoin(e Ev) {
+	w := r.w
+	old := r.actor(e.A)
+	if !old.gone {
+		return
+	}
+	old.mu.Lock()
+	busy := old.syncing > 0
+	old.mu.Unlock()
+	if busy {
+		return
+	}
+	// the old client object goes away (its notification subscriptions with it)
+	done := make(chan struct{})
+	go func() {
+		defer close(done)
+		defer func() { recover() }()
+		_ = old.client.Close()
+	}()
+	synctest.Wait()
+	old.mq.Disconnect(0)
+	a := w.replaceActor(old)
+	wasAuto := w.mongo.Auto
+	w.mongo.Auto = true
+	r.connect(a)
+	w.mongo.Auto = wasAuto
+	r.probe("rejoin")
+	r.logf("%s replaces %s (collection %s was reset)", a.name, old.name, a.collection)
+}
+
 // ---------------------------------------------------------------- opening datatypes
 
 func (r *run) open(a *actor, e Ev) {
 	key, kind, mode := e.K, e.Kind, e.Mode
 	if key == "" {
 		key = "k1"
+	}
+	if a.realtime && r.res.Probes["reset"] > 0 {
+		// After a reset the plan's idea of which keys exist is void. A realtime client whose entry is
+		// refused (create of an existing key, subscribe to a missing one) re-sends the refused request
+		// at once, for ever, as soon as it has a local operation (see quietGone): realtime clients
+		// re-enter by subscribe-or-create, which cannot be refused for the key's own type.
+		mode = "soc"
 	}
 	for _, d := range a.dts {
 		if d.key == key {
